@@ -44,3 +44,17 @@ TEXT.update({
                             're-creation with another library; registry observed through the registry-flavoured backend stub. Sampling evidence.'),
                 design_ref='DESIGN.md section 5, C14', level_note=_MEM_NOTE, technique='deterministic simulation: lifecycle histories with injected create failure vs reference state machine, shrinking, replay'),
 })
+
+_CB_NOTE = ('Trusted: the reference model (set of live registrations), the sim backend stub; noop and dylib backends run their real code against a small real C guest library. '
+            'Sampling, not enumeration.')
+TEXT.update({
+    'C12': dict(level_text=('Per guest call the application-side log must gain exactly the records the model predicts: the function registered for the called entry, the reference '
+                            'to the sandbox that is executing, arguments converted from the guest ABI, and the guest must receive the converted result or the call aborts when it is '
+                            'not representable - under histories of registrations/unregistrations, up to 64+ simultaneous registrations, nested chains to depth 4 across sandboxes, '
+                            'on the stub, noop and dylib backends and both TLS configurations. Sampling evidence.'),
+                design_ref='DESIGN.md section 5, C12', level_note=_CB_NOTE, technique='deterministic simulation: seeded registration/call histories with nested chains vs reference model, shrinking, replay'),
+    'C13': dict(level_text=('After every step of seeded ownership histories the set of functions reachable from guest code must equal the model\'s set of live registered owners '
+                            '(direct table comparison on the stub; flags, entry-point distinctness, re-registrability and call reachability on noop/dylib), capacity exhaustion must be '
+                            'refused and recoverable, moved-from owners inert, owners released after destroy_sandbox harmless. Sampling evidence.'),
+                design_ref='DESIGN.md section 5, C13', level_note=_CB_NOTE, technique='deterministic simulation: seeded ownership histories with capacity faults vs reference model, shrinking, replay'),
+})
